@@ -9,6 +9,8 @@ import RsslVerif.Lemmas.FixpointNamesWF
 import RsslVerif.Gen.PathLookup
 import RsslVerif.Gen.TemplateConst
 import RsslVerif.Lemmas.FixpointTemplate
+import RsslVerif.Gen.NameReserve
+import RsslVerif.Lemmas.FixpointGenNames
 /-!
 # C04 — emitted DirectX HLSL is accepted by the front end and is a fixpoint
 
@@ -942,5 +944,88 @@ theorem mutant_discipline_loses_literal_kind :
   refine ⟨rfl, by decide, by decide, by decide⟩
 
 end Template
+
+/-! ## Generated names are reserved against locals (seeded mutant C04-5)
+
+A type is emitted as a root-relative path, a local / parameter as a plain identifier, and `find_identifier_in_scope`
+looks at the locals of a scope first (`path_lookup_as_modelled`, stage order).  So the emitted text is only read back
+if no local is printed with the name of a type its scope uses.  For names the exporter *keeps* this is the known
+capture class (`names:relative-path-captured/..:by-local`, finding 3); for names the exporter *generates*
+(`texture` → `texture_0`) it is a theorem about `NameMap::build` (C15's model `Model.Names.build`), all inputs. -/
+section GeneratedNames
+open RsslVerif.Model.Names RsslVerif.Lemmas.FixpointGenNames
+
+/-- **generated_names_reserved_as_modelled** (obligation, re-extracted on every run by `Gen.NameReserve`): the statements
+of `NameMap::build` that touch `used_names_all_scopes`, in source order with the loops around them — the set is created
+(from the reserved names) *before* the per-scope loop; inside that loop every candidate that could be inserted into the
+scope's `used_names` is recorded in it (`St.gen` of `Model.Names.assignSym`); the usage loop adds the names of used
+functions / globals (`usedNames`); the local pass tests membership in this set and extends it (`assignLocals`:
+`reserved ++ gen of all scopes ++ usedNames`).  Breaks under seeded mutant C04-5 (declaration after the loop, candidate
+not recorded). -/
+theorem generated_names_reserved_as_modelled :
+    Gen.NameReserve.allScopesEvents =
+      [("", "", "let mut used_names_all_scopes = reserved_name_set.clone();"),
+       ("for scope in &scopes > for (name, symbols) in name_to_symbol_vec > for symbol in symbols > loop",
+        "if used_names.insert(candidate.clone())", "used_names_all_scopes.insert(candidate.clone());"),
+       ("for id in module.function_registry.iter() > for used_symbol in usage.get_usage_for_function(id)",
+        "if let Some(name_string) = name_map.names.get(&symbol)", "used_names_all_scopes.insert(name_string.name.clone());"),
+       ("for id in module.variable_registry.iter()", "", "let picked_name = if used_names_all_scopes.contains(name)"),
+       ("for id in module.variable_registry.iter() > loop", "",
+        "if !all_local_names.contains(&candidate) && used_names_all_scopes.insert(candidate.clone())")] ∧
+    (Gen.NameReserve.topLevelOrder.dropWhile (· ≠ "let mut used_names_all_scopes = reserved_name_set.clone();")).take 2 =
+      ["let mut used_names_all_scopes = reserved_name_set.clone();", "for scope in &scopes"] := by
+  decide
+
+/-- **local_meets_only_kept_names** (full, every input of the model): a local variable / parameter that is printed with
+the name of a namespace, struct, enum, enum value, global or function (of any scope) meets a symbol that *kept its source
+name*.  (`hwf`: the module's entries are not local variables.) -/
+theorem local_meets_only_kept_names {reserved : List String} {inp : Input} {names : List Named}
+    (h : build reserved inp = .ok names) (hwf : ∀ e, e ∈ inp.entries → e.sym.kind ≠ .localVar) :
+    ∀ l ∈ names, ∀ g ∈ names, l.sym.kind = .localVar → g.sym.kind ≠ .localVar → l.name = g.name →
+      (g.name, g.sym) ∈ scopeSyms inp g.scope :=
+  Lemmas.FixpointGenNames.local_meets_only_kept_names h hwf
+
+/-- **generated_names_apart_from_locals** (full): a symbol printed under a generated name (it has no source name equal to
+the printed one) shares that name with no local variable / parameter — in the emitted text no local shadows a renamed
+type, enum value, namespace, function or global. -/
+theorem generated_names_apart_from_locals {reserved : List String} {inp : Input} {names : List Named}
+    (h : build reserved inp = .ok names) (hwf : ∀ e, e ∈ inp.entries → e.sym.kind ≠ .localVar) :
+    ∀ l ∈ names, ∀ g ∈ names, l.sym.kind = .localVar → g.sym.kind ≠ .localVar →
+      (∀ src, (src, g.sym) ∈ scopeSyms inp g.scope → src ≠ g.name) → l.name ≠ g.name :=
+  Lemmas.FixpointGenNames.generated_names_apart_from_locals h hwf
+
+/-- `struct texture`, a namespace `A` next to a struct `A`, parameters `texture_0`, `A_1` -/
+def nonVacGenerated : Input :=
+  { nss := [(none, "A")], locals := ["texture_0", "A_1"], used := [],
+    entries := [⟨⟨.struct, 0⟩, none, "texture"⟩, ⟨⟨.struct, 1⟩, none, "A"⟩] }
+
+/-- non-vacuity: `build` succeeds on `nonVacGenerated`, its entries are not locals, the two structs are printed under
+generated names (`texture_0`, `A_1`: the hypothesis "no source name equals the printed name" holds for them) and the locals
+step aside -/
+example :
+    (build Gen.Reserved.hlsl nonVacGenerated).toOption.map (·.map (fun n => (n.sym.kind, n.name))) =
+      some [(.ns, "A_0"), (.struct, "A_1"), (.struct, "texture_0"), (.localVar, "texture_0_0"), (.localVar, "A_1_0")] ∧
+    (∀ e, e ∈ nonVacGenerated.entries → e.sym.kind ≠ .localVar) ∧
+    (∀ src, (src, (⟨.struct, 0⟩ : Sym)) ∈ scopeSyms nonVacGenerated none → src ≠ "texture_0") ∧
+    (∀ src, (src, (⟨.struct, 1⟩ : Sym)) ∈ scopeSyms nonVacGenerated none → src ≠ "A_1") := by
+  have h : ∀ p ∈ scopeSyms nonVacGenerated none,
+      (p.2 = ⟨.struct, 0⟩ → p.1 ≠ "texture_0") ∧ (p.2 = ⟨.struct, 1⟩ → p.1 ≠ "A_1") := by decide +kernel
+  exact ⟨by decide +kernel, by decide +kernel, fun src hs => (h _ hs).1 rfl, fun src hs => (h _ hs).2 rfl⟩
+
+/-- **late_set_loses_generated_type_names** (negation witness for the discipline of seeded mutant C04-5, `buildLate`,
+**not** the code): with the set created after the per-scope loop, `struct texture`, `enum pass` and the locals
+`texture_0`, `pass_0` are printed `texture_0`, `pass_0`, `texture_0`, `pass_0` — the locals carry the names generated for
+the types; the function `technique` that a body uses is still avoided.  The code's `build` gives `texture_0_0`,
+`pass_0_0`.  The program is in corpus/C04.txt. -/
+theorem late_set_loses_generated_type_names :
+    (build Gen.Reserved.hlsl witnessGenerated).toOption.map (·.map (fun n => (n.sym.kind, n.name))) =
+      some [(.enumValue, "V"), (.func, "f"), (.enum, "pass_0"), (.func, "technique_0"), (.struct, "texture_0"),
+            (.localVar, "texture_0_0"), (.localVar, "pass_0_0"), (.localVar, "technique_0_0")] ∧
+    (buildLate Gen.Reserved.hlsl witnessGenerated).toOption.map (·.map (fun n => (n.sym.kind, n.name))) =
+      some [(.enumValue, "V"), (.func, "f"), (.enum, "pass_0"), (.func, "technique_0"), (.struct, "texture_0"),
+            (.localVar, "texture_0"), (.localVar, "pass_0"), (.localVar, "technique_0_0")] :=
+  Lemmas.FixpointGenNames.late_set_loses_generated_type_names
+
+end GeneratedNames
 
 end RsslVerif.Thm.C04
